@@ -113,7 +113,8 @@ impl UpdateTrailingTrivia for TokenReference {
 }
 impl UpdateTrivia for TokenReference {
     open spec fn same_sem_u(&self, r: &Self) -> bool { tok_of(*r) == tok_of(*self) }
-    open spec fn trivia_ok(&self, l: FormatTriviaType, t: FormatTriviaType, r: &Self) -> bool { true }
+    // appending trivia without a line comment (spaces) behind the trailing trivia opens nothing
+    open spec fn trivia_ok(&self, l: FormatTriviaType, t: FormatTriviaType, r: &Self) -> bool { t is Append && no_line_comment(t->Append_0@) ==> (tok_open(*r) ==> tok_open(*self)) }
     #[verifier::external_body] fn update_trivia(&self, leading_trivia: FormatTriviaType, trailing_trivia: FormatTriviaType) -> (r: Self) { unimplemented!() }
 }
 impl UpdateLeadingTrivia for ContainedSpan {
